@@ -63,6 +63,48 @@ def plan(chunks, rng, mode, every_window=True, extra=0, streams=True):
     return ev
 
 
+def plan_stream(chunks, rng, via, extra=0):
+    """one execution around the sequential reader for a list of data chunks (inputs only): length of the
+    content, ReadAll, a ChunkStreamReader read to the end with odd buffer sizes, Seek to every offset
+    (holes, ends, past the end; from the start / the position / the end) each followed by a Read, then
+    the same reader and a fresh one across compaction / manifests, and MinusChunks between the versions"""
+    end = max_end(chunks)
+    ev = [{"ev": "reset", "list": chunks, "payload": [byte_vals(c["id"], c["size"]) for c in chunks],
+           "fsize": end + extra, "mode": "http"},
+          {"ev": "tsize"}, {"ev": "fsize", "attr": rng.choice([0, end, end + 1 + extra])},
+          {"ev": "readall"}, {"ev": "sopen", "via": via}]
+    left = end + 2
+    while left > 0:
+        n = rng.choice([1, 2, 3, 3, 5, 7])
+        ev.append({"ev": "sread", "n": n})
+        left -= n
+    ev.append({"ev": "sread", "n": rng.choice([0, 1, 4])})
+    pos = None                                   # python only tracks what it asked for, to build relative seeks
+    offs = list(range(0, end + 3))
+    rng.shuffle(offs)
+    for t in offs:
+        w = rng.choice([0, 0, 1, 2]) if pos is not None else rng.choice([0, 2])
+        off = t if w == 0 else (t - pos if w == 1 else t - end)
+        ev.append({"ev": "sseek", "off": off, "whence": w})
+        k = rng.choice([0, 1, 1, 2, 3, 3, end + 3])
+        if k:
+            ev.append({"ev": "sread", "n": k})
+        # position afterwards, if all goes as asked (only used to aim the next relative seek at >= 0)
+        pos = min(max(t, end), t + k) if t <= end else t
+        if t > end:
+            pos = None                           # the reader may refuse: next seek absolute
+    ev += [{"ev": "snap"}, {"ev": "compact"}, {"ev": "minus", "dir": 0}, {"ev": "minus", "dir": 1}, {"ev": "tsize"},
+           {"ev": "sseek", "off": 0, "whence": 0}, {"ev": "sread", "n": end + 1},
+           {"ev": "snap"}, {"ev": "manifestize", "batch": rng.choice([2, 2, 3])}, {"ev": "minus", "dir": 0},
+           {"ev": "minus", "dir": 1}, {"ev": "tsize"}, {"ev": "fsize", "attr": rng.choice([0, end + 2])},
+           {"ev": "sopen", "via": "master" if via == "filer" else "filer"}]
+    for t in rng.sample(range(0, end + 2), min(3, end + 2)):
+        ev += [{"ev": "sseek", "off": t, "whence": 0}, {"ev": "sread", "n": rng.choice([1, 2, end + 1])}]
+    ev += [{"ev": "snap"}, {"ev": "nest"}, {"ev": "minus", "dir": 0}, {"ev": "minus", "dir": 1}, {"ev": "tsize"},
+           {"ev": "readall"}, {"ev": "sread", "n": 2}]
+    return ev
+
+
 def from_hist(h, reverse):
     cs = [op["c"] for op in h if op["ev"] == "add"]
     if reverse:
@@ -86,6 +128,7 @@ def random_exec(rng, big):
     maxm = rng.choice([2, 4, 30])
     cs = chunks(rng.randint(4, 24 if big else 10), maxoff, maxsize, maxm)
     allc = list(cs)
+    opened = False
     fs = max_end(allc) + rng.choice([0, 0, 1, 3])
     ev = [{"ev": "reset", "list": cs, "payload": [byte_vals(c["id"], c["size"]) for c in cs], "fsize": fs,
            "mode": rng.choice(MODES)}]
@@ -93,8 +136,21 @@ def random_exec(rng, big):
         r = rng.random()
         o = rng.randint(0, fs)
         n = rng.randint(0, fs - o + 2)
-        if r < 0.35:
+        if r < 0.25:
             ev.append({"ev": "readat", "off": o, "n": n, "fresh": rng.random() < 0.2})
+        elif r < 0.35:
+            x = rng.random()
+            if not opened or x < 0.15:
+                ev.append({"ev": "sopen", "via": rng.choice(["filer", "master"])})
+                opened = True
+            elif x < 0.5:
+                ev.append({"ev": "sseek", "off": o, "whence": 0} if rng.random() < 0.7 else
+                          {"ev": "sseek", "off": -rng.randint(0, min(fs, 6)), "whence": 2})
+            else:
+                ev.append({"ev": "sread", "n": rng.choice([0, 1, 2, 3, 5, 7, 13])})
+        elif r < 0.39:
+            ev.append(rng.choice([{"ev": "tsize"}, {"ev": "fsize", "attr": rng.randint(0, fs + 2)}, {"ev": "readall"},
+                                  {"ev": "snap"}, {"ev": "minus", "dir": rng.randint(0, 1)}]))
         elif r < 0.55:
             ev.append({"ev": "view", "off": o, "size": n} if rng.random() < 0.8 else {"ev": "view", "off": 0, "size": -1})
         elif r < 0.65:
@@ -138,7 +194,9 @@ def run(ctx):
     else:
         U = {"Offs": set(range(0, 3)), "Sizes": {1, 2}, "Mtimes": {1, 2}, "MaxChunks": 3, "Canon": True, "MaxOps": 2}
     mc = ctx.instance("MC_ChunkOverlay", "ChunkOverlay", "ChunkOverlay_mc.cfg", U)
-    ctx.model_check(mc, workers=4, timeout=1500)
+    only = os.environ.get("C17_ONLY")          # "stream": development / mutation testing of the sequential-reader part alone
+    if not only:
+        ctx.model_check(mc, workers=4, timeout=1500)
     # 2. G1: every chunk list (as a multiset, in ascending order) up to 3 chunks over the small universe
     if ctx.thorough:
         G = {"Offs": set(range(0, 5)), "Sizes": {1, 2, 3}, "Mtimes": {1, 2, 3}, "MaxChunks": 3, "Canon": True, "MaxOps": 0}
@@ -148,6 +206,11 @@ def run(ctx):
     hists = ctx.generate(g1, workers=4, timeout=1500)
     execs = []
     for i, h in enumerate(hists):
+        if len(h) <= 2 or (i + ctx.seed) % (4 if ctx.thorough else 8) == 0:
+            # the sequential reader over the same lists (quick: every eighth, thorough: every fourth 3-chunk list)
+            execs.append(plan_stream(from_hist(h, reverse=(i % 3 == 1)), rng, ["filer", "master"][i % 2], extra=i % 2))
+        if only == "stream":
+            continue
         if not ctx.thorough and len(h) == 3 and (i + ctx.seed) % 2 == 1:
             continue          # quick: every second 3-chunk list (which half depends on the seed)
         cs = from_hist(h, reverse=(i % 4 >= 2))
@@ -187,7 +250,7 @@ def run(ctx):
         return None
 
     def nontrivial(e):
-        return len(e) >= 6 and any('"ev":"readat"' in x for x in e)
+        return len(e) >= 6 and any('"ev":"readat"' in x or '"ev":"sread"' in x for x in e)
 
     nev = sum(1 for _ in open(trace))
     ctx.judge("ChunkOverlayTrace", trace, "trace_base.cfg",
@@ -199,9 +262,14 @@ def run(ctx):
                 "list order and with the cache/http/slice data path, observed through ViewFromChunks (whole file and "
                 "windows), ReadAt into a 170-prefilled buffer for every window (off, n) up to one byte past the file size "
                 "(sampled windows for the largest lists in thorough), StreamContent, then CompactFileChunks, "
-                "MaybeManifestize with batch 2-3 and nesting into one manifest, re-observed after each step; + seeded "
+                "MaybeManifestize with batch 2-3 and nesting into one manifest, re-observed after each step; for every list "
+                "of <= 2 chunks and every eighth (thorough: fourth) 3-chunk list a second execution around the sequential "
+                "reader: TotalSize, FileSize, ReadAll, a ChunkStreamReader (both constructors) read to the end with buffer "
+                "sizes 1-7, Seek to every offset 0..end+2 from the start / the position / the end each followed by a Read, "
+                "the same reader and a fresh one across compaction / manifests / nesting, MinusChunks both ways between the "
+                "list before and after each of these steps; + seeded "
                 "random executions (4-24 chunks, offsets to 40, sizes to 12, tied mtimes, appends, batches 2-4 and the "
-                "public batch); non-trivial = at least one ReadAt and >= 5 operations; distinct by hash of the recorded "
+                "public batch, the reader / size / minus operations mixed in); non-trivial = at least one ReadAt or reader Read and >= 5 operations; distinct by hash of the recorded "
                 "execution" % (sorted(G["Offs"]), sorted(G["Sizes"]), sorted(G["Mtimes"])))
     ctx.exhaustive = True
     ctx.assumptions += ["chunks have size >= 1; the file size given to the reader is >= the end of the last chunk",
